@@ -31,7 +31,9 @@ def proj(st):
     """Projection of a spec state to what the harness observes."""
     return {
         "file": {l: {"ex": f["ex"], "rules": f["rules"]} for l, f in st["file"].items()},
-        "count": dict(st["count"]),
+        # a disabled list shows no rule count (-1 = not compared)
+        "count": {l: (c if st["en"][l] else -1) for l, c in st["count"].items()},
+        "en": dict(st["en"]),
         # rules in force are observed through probe names, i.e. for rule atoms only
         "eng": {l: sorted(r for r in e if len(r) == 1 and r[0].startswith("R")) for l, e in st["eng"].items()},
     }
@@ -48,6 +50,7 @@ def norm_edge(e):
     e["failed"] = sorted(e["failed"])
     if "asis" not in e:
         e["asis"] = e["dst"]
+    e["rewfree"] = sorted(e.get("rewfree", []))
     if "due" in e["act"]:
         e["act"]["due"] = sorted(e["act"]["due"])
     e["sk"], e["dk"] = skey(e["src"]), skey(e["dst"])
@@ -236,7 +239,7 @@ UNIVERSES = {
     "FilterRefresh.mc.cfg": {"block": ["b1"], "allow": ["a1"]},
     "FilterRefresh.mck.cfg": {"block": ["b1"], "allow": ["a1"]},   # the same with the other parser policy
     "FilterRefresh.three.cfg": {"block": ["b1", "b2"], "allow": ["a1"]},
-    "FilterRefresh.seturl.cfg": {"block": ["b1"], "allow": ["a1"]},  # refused set_url (failing download) between refreshes
+    "FilterRefresh.admin.cfg": {"block": ["b1"], "allow": ["a1"]},   # refused set_url, disable, enable between refreshes
     "FilterRefresh.long.cfg": {"block": ["b1"], "allow": ["a1"]},    # rule lines of 4095 .. 65535 bytes
 }
 
@@ -297,7 +300,7 @@ class Graph:
                     out[e["sk"]].append(e)
             self.out[ck] = out
 
-    def path(self, ck, start, goal):
+    def path(self, ck, start, goal, avoid=lambda e: False):
         """Shortest edge path from state start to a state satisfying goal."""
         prev = {start: None}
         q = collections.deque([start])
@@ -310,7 +313,7 @@ class Graph:
                     p.append(e)
                 return list(reversed(p))
             for e in self.out[ck].get(k, []):
-                if e["dk"] not in prev:
+                if e["dk"] not in prev and not avoid(e):
                     prev[e["dk"]] = (k, e)
                     q.append(e["dk"])
         return None
@@ -338,7 +341,7 @@ class Graph:
             cur, steps, fresh = init, [], 0
             while left:
                 if not pending.get(cur):
-                    p = self.path(ck, cur, lambda k: bool(pending.get(k)))
+                    p = self.path(ck, cur, lambda k: bool(pending.get(k)), avoid=terminal)
                     if p is None and cur == init and not steps:
                         raise vlib.Inconclusive("edges unreachable from the initial state")
                     if not p or len(steps) + len(p) >= maxlen:
@@ -367,7 +370,7 @@ class Graph:
         return res
 
     def shortest_to(self, e):
-        p = self.path(e["ck"], self.init[e["ck"]], lambda k: k == e["sk"])
+        p = self.path(e["ck"], self.init[e["ck"]], lambda k: k == e["sk"], avoid=diverges)
         return None if p is None else p + [e]
 
 
@@ -380,7 +383,7 @@ def tour_json(t):
     return {"id": t["id"], "cfg": t["cfg"], "lists": t["lists"], "block": t["block"], "atoms": t["atoms"],
             "go_on": t.get("go_on", False),
             "steps": [{"act": e["act"], "script": e["script"], "dst": proj(e["dst"]), "rew": e["rew"],
-                       "sumchg": sumchg(e)} for e in t["steps"]]}
+                       "sumchg": sumchg(e), "rewfree": e["rewfree"]} for e in t["steps"]]}
 
 
 def run_tours(ctx, tours, tag, shards=SHARDS):
@@ -406,6 +409,21 @@ def run_tours(ctx, tours, tag, shards=SHARDS):
 
 
 KEY_SETURL = "failed-set-url-forgets-checksum"
+KEY_RULELESS = "ruleless-list-into-unloaded-filter-not-stored"
+
+
+def diverges(e):
+    """Today's code is known to leave this edge in a state the specification does not have."""
+    return skey(e["asis"]) != skey(e["dst"])
+
+
+def same_obs(got, st):
+    """The observation equals the projection of state st (no file = empty file)."""
+    p = proj(st)
+    return (all(got["file"][l]["rules"] == p["file"][l]["rules"] for l in p["file"])
+            and all(c < 0 or got["count"][l] == c for l, c in p["count"].items())
+            and all(sorted(got["eng"][l]) == p["eng"][l] for l in p["eng"])
+            and all(got.get("en", {}).get(l) == v for l, v in p["en"].items()))
 
 
 def classify_step(edge, row):
@@ -415,13 +433,22 @@ def classify_step(edge, row):
             and sumchg(dict(edge, dst=edge["asis"])) == got["sumchg"] and not got["rew"]):
         # nothing but the remembered checksum of that list changed, as in SetURLFailedAsIs
         return KEY_SETURL
+    if (edge["act"]["a"] == "enable" and row["diffs"] == ["file:" + edge["act"]["list"]] and diverges(edge)
+            and not edge["dst"]["file"][edge["act"]["list"]]["rules"] and same_obs(got["state"], edge["asis"])):
+        # the list was enabled with content without rules, everything is as expected
+        # except that the stale file of its earlier life is still there (EnabledWith.ai)
+        return KEY_RULELESS
     return None
 
 
 def consequence(g, edge):
-    """For a refused set_url on list l: the forced refresh of l that follows with
-    content whose checksum is unchanged (must not be rewritten)."""
+    """The step that shows, in the isolated run, what a known deviation leads to.
+    Refused set_url on list l: the forced refresh of l that follows with content
+    whose checksum is unchanged (must not be rewritten).  Rule-less list enabled:
+    a restart (the stale rules must not come back)."""
     l = edge["act"]["list"]
+    if edge["act"]["a"] == "enable":
+        return next((e for e in g.out[edge["ck"]].get(edge["dk"], []) if e["act"]["a"] == "restart"), None)
     for e in g.out[edge["ck"]].get(edge["dk"], []):
         a = e["act"]
         if (a["a"] == "refresh" and a["mode"] == "forced" and l in e["script"] and e["script"][l]["k"] == "ok"
@@ -444,7 +471,7 @@ def refresh_replay(ctx, edges, uni, tag, rng, budget=None):
     moves = [e for e in edges if e["act"]["a"] != "boot"]
     if budget is not None and len(moves) > budget:
         select = rng.sample(moves, budget)
-    tours = g.tours(rng, 250, select, terminal=lambda e: e["act"]["a"] == "seturl")
+    tours = g.tours(rng, 250, select, terminal=lambda e: e["act"]["a"] == "seturl" or diverges(e))
     rows, summ = run_tours(ctx, tours, tag)
     by_id = {t["id"]: t for t in tours}
     bad = [r for r in rows if r.get("kind") == "bad"]
@@ -481,7 +508,7 @@ def refresh_replay(ctx, edges, uni, tag, rng, budget=None):
     def rerun(items, stage):
         # a refused set_url that only changes the remembered checksum is followed,
         # in the isolated run, by the refresh that shows what that leads to
-        extra = [consequence(g, item[1]) if item[2] == KEY_SETURL else None for _, item in items]
+        extra = [consequence(g, item[1]) if item[2] in (KEY_SETURL, KEY_RULELESS) else None for _, item in items]
         iso = [dict(g.tour(n, steps + ([x] if x else [])), go_on=bool(x)) for n, ((steps, _), x) in enumerate(zip(items, extra))]
         rows2, _ = run_tours(ctx, iso, "%s_iso%d" % (tag, stage))
         hit = {}
@@ -495,6 +522,8 @@ def refresh_replay(ctx, edges, uni, tag, rng, budget=None):
                 c = hit.get((n, len(steps)))
                 r2["consequence"] = {"then": {"act": x["act"], "script": x["script"]},
                                      "unchanged_content_rewritten": bool(c and "rew" in c["diffs"]),
+                                     "stale_rules_back_after_restart": bool(c and x["act"]["a"] == "restart" and any(
+                                         d.startswith(("count:", "eng:")) for d in c["diffs"])),
                                      "diffs": c["diffs"] if c else []}
             out.append(r2)
         return out
@@ -528,10 +557,11 @@ def confirm(ctx, res, tag, g, steps, item):
     rec = {"kind": "tour", "universe": tag, "cfg": edge["cfg"], "lists": g.uni["block"] + g.uni["allow"],
            "block": g.uni["block"], "diffs": r["diffs"], "observed": r["got"], "consequence": r.get("consequence"),
            "steps": [{"act": e["act"], "script": e["script"], "dst": proj(e["dst"]), "rew": e["rew"],
-                      "sumchg": sumchg(e)} for e in steps]}
+                      "sumchg": sumchg(e), "rewfree": e["rewfree"]} for e in steps]}
     if ctx.disagreement(key, rec, what_step(edge, r)) == "known":
         res["known"] += 1
-        if (r.get("consequence") or {}).get("unchanged_content_rewritten"):
+        c = r.get("consequence") or {}
+        if c.get("unchanged_content_rewritten") or c.get("stale_rules_back_after_restart"):
             res["known_with_consequence"] += 1
 
 
@@ -645,22 +675,27 @@ def run(ctx):
     for k in need:
         if stats[k] == 0:
             raise vlib.Inconclusive("vacuous: no edge of kind %s" % k)
-    res2 = refresh_replay(ctx, edges, UNIVERSES[mc], "mc", rng, budget=6000 if ctx.quick else None)
+    res2 = refresh_replay(ctx, edges, UNIVERSES[mc], "mc", rng, budget=4000 if ctx.quick else None)
     edges3 = refresh_edges(ctx, "FilterRefresh.three.cfg", coverage=False)
-    res3 = refresh_replay(ctx, edges3, UNIVERSES["FilterRefresh.three.cfg"], "three", rng, budget=1000 if ctx.quick else None)
+    res3 = refresh_replay(ctx, edges3, UNIVERSES["FilterRefresh.three.cfg"], "three", rng, budget=600 if ctx.quick else None)
 
     # line length through the real download-and-store path
     edgesl = refresh_edges(ctx, "FilterRefresh.long.cfg", coverage=False)
     longrew = sum(1 for e in edgesl if any(any(t in LONG for t in b["t"]) and l in e["rew"] for l, b in e["script"].items()))
     if longrew == 0:
         raise vlib.Inconclusive("vacuous: no edge stores a list with a long line")
-    resl = refresh_replay(ctx, edgesl, UNIVERSES["FilterRefresh.long.cfg"], "long", rng, budget=1200 if ctx.quick else None)
+    resl = refresh_replay(ctx, edgesl, UNIVERSES["FilterRefresh.long.cfg"], "long", rng, budget=800 if ctx.quick else None)
 
-    # refused set_url between refreshes
-    edgess = refresh_edges(ctx, "FilterRefresh.seturl.cfg", coverage=False)
+    # admin operations between refreshes: refused set_url, disable, enable
+    edgess = refresh_edges(ctx, "FilterRefresh.admin.cfg", coverage=False)
     if not any(e["act"]["a"] == "seturl" and e["src"]["sum"][e["act"]["list"]] for e in edgess):
         raise vlib.Inconclusive("vacuous: no refused set_url on a list that has content")
-    ress = refresh_replay(ctx, edgess, UNIVERSES["FilterRefresh.seturl.cfg"], "seturl", rng)
+    if not any(e["act"]["a"] == "enable" and e["src"]["file"][e["act"]["list"]]["rules"]
+               and e["dst"]["en"][e["act"]["list"]] and not e["dst"]["file"][e["act"]["list"]]["rules"] for e in edgess):
+        raise vlib.Inconclusive("vacuous: no list with a stale file enabled with rule-less content")
+    if not any(e["act"]["a"] == "disable" for e in edgess) or not any(e["act"]["a"] == "enable" and e["failed"] for e in edgess):
+        raise vlib.Inconclusive("vacuous: no disable / refused enable")
+    ress = refresh_replay(ctx, edgess, UNIVERSES["FilterRefresh.admin.cfg"], "admin", rng)
     negs = ctx.tlc("FilterRefresh", "FilterRefresh.seturlasis.cfg", workers=1, timeout=600, expect_violation=True)
     if negs["violated"] != "InvCoherent":
         raise vlib.Inconclusive("FilterRefresh.seturlasis.cfg no longer violates InvCoherent: the negative control lost its meaning")
@@ -706,7 +741,7 @@ def run(ctx):
         "refresh_bad_steps_not_rerun_alike": tot["not_rerun"],
         "refresh_steps_lost_after_a_disagreement": tot["truncated"],
         "truncated_by_known_finding": ress["truncated"] if ress["known"] else 0,
-        "refresh_known_finding_steps": tot["known"], "refresh_known_finding_steps_shown_to_rewrite_unchanged_content": tot["known_with_consequence"],
+        "refresh_known_finding_steps": tot["known"], "refresh_known_finding_steps_with_consequence_shown": tot["known_with_consequence"],
         "refresh_trace_steps": trace_steps, "refresh_trace_rejected": len(verdict["bad"]),
         "negative_controls": ["FilterRefresh.asis.cfg (pre-fix early return before the engine rebuild) violates FailureIsNoOp",
                               "FilterRefresh.seturlasis.cfg (roll-back of a refused set_url forgets the checksum) violates InvCoherent",
@@ -741,7 +776,7 @@ def replay(ctx, path):
     if kind == "tour":
         tour = {"id": 0, "cfg": rec["cfg"], "lists": rec["lists"], "block": rec["block"], "atoms": ["R1", "R2"],
                 "steps": [{"act": s["act"], "script": s["script"], "dst": s["dst"], "rew": s["rew"],
-                           "sumchg": s.get("sumchg", [])} for s in rec["steps"]]}
+                           "sumchg": s.get("sumchg", []), "rewfree": s.get("rewfree", [])} for s in rec["steps"]]}
         vin, vout = ctx.path("c15_replay_in.ndjson"), ctx.path("c15_replay_out.ndjson")
         vlib.write_ndjson(vin, [tour])
         rc, out = go(ctx, "^TestZZVerifC15Tours$", {"VERIF_IN": vin, "VERIF_OUT": vout, "VERIF_PAR": "1"})
